@@ -1209,6 +1209,8 @@ fn signature__structural_tampering_is_rejected() {
     { let mut k = k1.clone(); k.signature = None; mutants.push(("signature stripped".into(), k)); }
     { let mut k = k1.clone(); let mut s = k.signature.unwrap(); s[5] ^= 1; k.signature = Some(s); mutants.push(("signature altered".into(), k)); }
     { let mut k = k1.clone(); k.signature = k2.signature; mutants.push(("signature of another issued key".into(), k)); }
+    { let mut k = k1.clone(); let mut s = k.signature.unwrap(); s[0] ^= 0x01; s[1] ^= 0x01; k.signature = Some(s); mutants.push(("signature with two bytes xored by the same value".into(), k)); }
+    { let mut k = k1.clone(); let mut s = k.signature.unwrap(); s.reverse(); k.signature = Some(s); mutants.push(("signature reversed".into(), k)); }
     { let mut c = c1.clone(); c.extend(chains(&k2)); mutants.push(("splice: rights of two issued keys".into(), rebuild(&k1, c))); }
     mutants.push(("key issued by another master key".into(), kf));
     // every tampered key is presented as built and as an attacker would send it: through its serialized form
